@@ -458,7 +458,11 @@ func gTV(nm *vh.Names, v TV) string {
 func gNotif(nm *vh.Names, n *Noti) string {
 	us := make([]string, len(n.Upd))
 	for i, u := range n.Upd {
-		us[i] = fmt.Sprintf("(Upd %s %s)", gOptPath(nm, u.Path), gTV(nm, u.Val))
+		dep := "None"
+		if u.Dep != nil {
+			dep = fmt.Sprintf("(Some (%s, %s))", gN(uint64(uint32(u.Dep.Enc))), nm.Ref(u.Dep.B))
+		}
+		us[i] = fmt.Sprintf("(UpdD %s %s %s)", gOptPath(nm, u.Path), gTV(nm, u.Val), dep)
 	}
 	ds := make([]string, len(n.Del))
 	for i := range n.Del {
